@@ -189,6 +189,49 @@ def write_on_single_view(rng, coeffs, x, const=0.0):
     raise AssertionError("no covering view")
 
 
+def arr(rng, values):
+    """a coefficient array in one of the dtypes a user may hold it in (same mathematical values)"""
+    vals = np.asarray(values, dtype=float)
+    kinds = ["float64", "float64", "float32", "list"]
+    if np.all(vals == np.round(vals)):
+        kinds += ["int64", "int32", "int16", "int8", "pyint"]
+        if np.all(vals >= 0):
+            kinds += ["uint8", "uint16", "uint32", "uint64", "uint8"]
+    k = rng.choice(kinds)
+    if k == "list":
+        return np.array([float(v) for v in vals.ravel()]).reshape(vals.shape)
+    if k == "pyint":
+        return np.array([int(v) for v in vals.ravel()]).reshape(vals.shape)
+    return vals.astype(k)
+
+
+def flip(s):
+    return {"<=": ">=", ">=": "<=", "==": "=="}[s]
+
+
+def rescale(rng, lhs, s, r):
+    """the same constraint written with the left side negated / scaled by a Python number:
+    (lhs ⋈ r)  ==  (k·lhs ⋈' k·r)"""
+    form = rng.choice(["plain", "plain", "neg", "int_k", "int_k_right", "neg_k", "div", "big_k"])
+    if form == "plain":
+        return lhs, s, r
+    if form == "neg":
+        return -lhs, flip(s), -r
+    if form == "int_k":
+        k = rng.choice([2, 3, 5])
+        return k * lhs, s, k * r
+    if form == "int_k_right":
+        k = rng.choice([2, 4])
+        return lhs * k, s, k * r
+    if form == "neg_k":
+        k = rng.choice([-1, -2, -3.0])
+        return k * lhs, flip(s), k * r
+    if form == "div":
+        return lhs / 2, s, r / 2
+    k = rng.choice([50, 100, 1000, 70000])
+    return k * lhs, s, k * r
+
+
 def write_linear(rng, coeffs, x, ys, style, const=0.0):
     """Σ coeffs·(x, ys) + const as an optyx expression in the given style"""
     from optyx.core.expressions import Constant
@@ -219,9 +262,9 @@ def write_linear(rng, coeffs, x, ys, style, const=0.0):
     elif style == "msum":
         add(x.sum() if ax[0] == 1 else ax[0] * x.sum())
     elif style == "lc":
-        add(np.array(ax) @ x)
+        add(arr(rng, ax) @ x)
     elif style == "lc_right":
-        add(x @ np.array(ax))
+        add(x @ arr(rng, ax))
     elif style == "lc_shift":
         s = rng.choice([1.0, -2.0, 0.5])
         add(np.array(ax) @ (x + s))
@@ -293,12 +336,12 @@ def build_problem(rng, m):
         while (j < len(rows) and rows[j][1] == s and all(v == 0 for v in rows[j][0][n1:])):
             j += 1
         if j - i >= 2 and rng.random() < 0.6 and not is_matrix:
-            A = np.array([rw[0][:n1] for rw in rows[i:j]])
+            A = arr(rng, [rw[0][:n1] for rw in rows[i:j]])
             b = np.array([rw[2] for rw in rows[i:j]])
-            lhs = A @ x
-            cons = (lhs <= b) if s == "<=" else (lhs >= b) if s == ">=" else lhs.eq(b)
+            lhs, s2, b = rescale(rng, A @ x, s, b)
+            cons = (lhs <= b) if s2 == "<=" else (lhs >= b) if s2 == ">=" else lhs.eq(b)
             P.subject_to(cons)
-            used_styles.append("matrix_rows")
+            used_styles.append("matrix_rows:" + str(A.dtype))
             i = j
             continue
         st = rng.choice(styles)
@@ -306,7 +349,11 @@ def build_problem(rng, m):
         form = rng.random()
         if form < 0.5:
             lhs = write_linear(rng, a, x, ys, st)
-            con = (lhs <= r) if s == "<=" else (lhs >= r) if s == ">=" else lhs.eq(r)
+            if rng.random() < 0.35:
+                lhs, s_w, r_w = rescale(rng, lhs, s, r)
+            else:
+                s_w, r_w = s, r
+            con = (lhs <= r_w) if s_w == "<=" else (lhs >= r_w) if s_w == ">=" else lhs.eq(r_w)
         elif form < 0.75:
             lhs = write_linear(rng, a, x, ys, st, const=-r)
             con = (lhs <= 0) if s == "<=" else (lhs >= 0) if s == ">=" else lhs.eq(0)
